@@ -179,3 +179,68 @@ def next_position_lemmas(p, o, a):
     check('one-step', lambda: implies(is_move(a), Position.manhattan_distance(get_next_position(p, o, a), p) == 1))
     check('stay', lambda: implies(not is_move(a), get_next_position(p, o, a) == p))
     check('forward-is-front', lambda: get_next_position(p, o, Action.MOVE_FORWARD) == Transform(p, o) * Position.from_orientation(F))
+
+
+# ------------------------------------------------------------------------- Area.positions
+def area_border(a, p):
+    return area_has(a, p) and (p.y == a.ys[0] or p.y == a.ys[1] or p.x == a.xs[0] or p.x == a.xs[1])
+
+
+@contract(target=G + 'Area.positions', args={'self': 'Area', 'selection': ('const', 'all'), 'p': 'Position'}, ghost=['p'],
+          props=['C18', 'C13'])
+def area_positions_all(self, selection, p):
+    ensures('total', lambda: returned())
+    ensures('exactly-the-cells-of-the-area', lambda: (p in list(result())) == area_has(self, p))
+
+
+@contract(target=G + 'Area.positions', args={'self': 'Area', 'selection': ('const', 'border'), 'p': 'Position'}, ghost=['p'],
+          props=['C18', 'C13'])
+def area_positions_border(self, selection, p):
+    ensures('total', lambda: returned())
+    ensures('exactly-the-border-cells', lambda: (p in list(result())) == area_border(self, p))
+
+
+@contract(target=G + 'Area.positions', args={'self': 'Area', 'selection': ('const', 'inside'), 'p': 'Position'}, ghost=['p'],
+          props=['C18', 'C13'])
+def area_positions_inside(self, selection, p):
+    ensures('total', lambda: returned())
+    ensures('exactly-the-interior-cells', lambda: (p in list(result())) == (area_has(self, p) and not area_border(self, p)))
+
+
+@contract(target=G + 'Area.positions', args={'self': 'Area', 'selection': 'str'}, props=['C18'])
+def area_positions_rejects_other_selections(self, selection):
+    ensures('valueerror-for-unknown-selection', lambda: implies(
+        selection != 'all' and selection != 'border' and selection != 'inside', lambda: raised(ValueError)))
+
+
+@lemma(args={'a': 'Area', 'k': 'int'}, props=['C18', 'C05'])
+def area_accessors(a, k):
+    check('bounds', lambda: a.ymin == a.ys[0] and a.ymax == a.ys[1] and a.xmin == a.xs[0] and a.xmax == a.xs[1])
+    check('extent', lambda: a.height == a.ys[1] - a.ys[0] + 1 and a.width == a.xs[1] - a.xs[0] + 1
+          and a.height >= 1 and a.width >= 1)
+    check('coordinate-ranges', lambda: (k in a.y_coordinates()) == (a.ys[0] <= k and k <= a.ys[1])
+          and (k in a.x_coordinates()) == (a.xs[0] <= k and k <= a.xs[1]))
+
+
+@contract(target=G + 'Area', args={'ys': ('tuple', ['int', 'int']), 'xs': ('tuple', ['int', 'int'])}, props=['C18'])
+def area_constructor(ys, xs):
+    ensures('ordered-bounds-or-valueerror', lambda: returned() == (ys[0] <= ys[1] and xs[0] <= xs[1])
+            and implies(not returned(), lambda: raised(ValueError)))
+    ensures('keeps-the-bounds', lambda: implies(returned(), lambda: result().ys[0] == ys[0] and result().ys[1] == ys[1]
+                                                and result().xs[0] == xs[0] and result().xs[1] == xs[1]))
+
+
+@contract(target=G + 'distance_function_factory', args={'name': 'str'}, props=['C18', 'C12'])
+def distance_function_factory(name):
+    ensures('known-names-or-valueerror', lambda: returned() == (name == 'manhattan' or name == 'euclidean')
+            and implies(not returned(), lambda: raised(ValueError)))
+    ensures('manhattan-is-l1', lambda: implies(name == 'manhattan', lambda: result() is Position.manhattan_distance))
+    ensures('euclidean', lambda: implies(name == 'euclidean', lambda: result() is Position.euclidean_distance))
+
+
+@contract(target=G + 'Position.euclidean_distance', args={'p': 'Position', 'q': 'Position'}, props=['C18', 'C12'])
+def position_euclidean(p, q):
+    ensures('total', lambda: returned())
+    d2 = (p.y - q.y) * (p.y - q.y) + (p.x - q.x) * (p.x - q.x)
+    # floats natively (T7): the square is compared up to rounding
+    ensures('l2', lambda: result() >= 0 and abs(result() * result() - d2) * 1000000000 <= 1 + d2)
